@@ -118,12 +118,13 @@ class Gen:
                     for _ in range(rng.randint(1, 3)):
                         r = rng.random()
                         if depth < 2 and r < 0.15:
-                            out.append({'group': 'sequence', 'occ': rng.choice([{}, {'minOccurs': '0'}, {'maxOccurs': 'unbounded'}]), 'items': particles(depth + 1)})
+                            out.append({'group': 'sequence', 'occ': rng.choice([{}, {'minOccurs': '0'}, {'maxOccurs': 'unbounded'}, {'minOccurs': '0', 'maxOccurs': 'unbounded'},
+                                                                                 {'minOccurs': '0', 'maxOccurs': '3'}]), 'items': particles(depth + 1)})
                         elif depth < 2 and r < 0.3:
                             # a branch is an element or a nested sequence of (required) elements
                             items = [member() if rng.random() < 0.7 else {'group': 'sequence', 'occ': {}, 'items': [member() for _ in range(rng.randint(1, 2))]}
                                      for _ in range(rng.randint(2, 3))]
-                            out.append({'group': 'choice', 'occ': rng.choice([{}, {}, {'maxOccurs': 'unbounded'}]), 'items': items})
+                            out.append({'group': 'choice', 'occ': rng.choice([{}, {}, {'maxOccurs': 'unbounded'}, {'minOccurs': '0', 'maxOccurs': '2'}]), 'items': items})
                         else:
                             out.append(member())
                     return out
@@ -245,10 +246,10 @@ class Gen:
             ohb = ''.join(f'<soap:header message="tns:M{k}Out" part="{ohn[j]}" use="literal"/>' for j in range(len(oheads)))
             ip = f' parts="{ipn}"' if rng.random() < 0.5 else ''
             op = f' parts="{opn}"' if rng.random() < 0.5 else ''
-            bd += (f' <wsdl:operation name="{on}"><soap:operation soapAction="http://verif.example/act/{k}"/><wsdl:input>{hb}<soap:body{ip} use="literal"/></wsdl:input>'
-                   + ('' if one_way else f'<wsdl:output>{ohb}<soap:body{op} use="literal"/></wsdl:output>') + '</wsdl:operation>\n')
+            bd += (f' <wsdl:operation name="{on}"><soap:operation soapAction="http://verif.example/act/{k}"/><wsdl:input>' + (f'{hb}<soap:body{ip} use="literal"/>' if rng.random() < 0.5 else f'<soap:body{ip} use="literal"/>{hb}') + '</wsdl:input>'
+                   + ('' if one_way else '<wsdl:output>' + (f'{ohb}<soap:body{op} use="literal"/>' if rng.random() < 0.5 else f'<soap:body{op} use="literal"/>{ohb}') + '</wsdl:output>') + '</wsdl:operation>\n')
         svc = style(rng, rng.sample(WORDS, 2), 't')
-        svc = ''.join(x.capitalize() for x in svc.replace('_', ' ').split()) if '_' in svc else svc[0].upper() + svc[1:]
+        svc = svc if rng.random() < 0.4 else (''.join(x.capitalize() for x in svc.replace('_', ' ').split()) if '_' in svc else svc[0].upper() + svc[1:])
         # the definitions often have a namespace of their own, different from the one of the inline schema
         # (not together with `tns` re-declared by the inline schema for ANOTHER URI: zeep's prefix table is flat, an inner xmlns
         # that shadows an outer prefix is a limitation noted in DESIGN 8.6, outside what the corpus claims)
